@@ -24,3 +24,6 @@ pub fn vx_res_cloned<T: Clone, E>(o: std::result::Result<&T, E>) -> (r: std::res
 { unimplemented!() }
 pub assume_specification<T>[ bool::then_some ](b: bool, t: T) -> (r: Option<T>)
     ensures r == (if b { Some(t) } else { None::<T> });
+pub assume_specification<T, F: FnOnce(T) -> bool>[ Option::<T>::is_some_and ](o: Option<T>, f: F) -> (r: bool)
+    requires o is Some ==> f.requires((o->Some_0,)),
+    ensures o is None ==> !r, o is Some ==> f.ensures((o->Some_0,), r);
